@@ -34,6 +34,7 @@ def run_property(prop, tier, seed, replay_file=None):
     workers = 8 if tier == "quick" else 14
     tot = dict(states=0, transitions=0, behaviours=0, runs=0, misses=0, hung=0, model_cex=0)
     samples, per_instance, all_new, all_listed = [], [], [], []
+    beh_cache = {}
     vacuity = []
 
     # ---- a stored violation is replayed on its own
@@ -59,6 +60,40 @@ def run_property(prop, tier, seed, replay_file=None):
     for entry in insts:
         name = entry if isinstance(entry, str) else entry[0]
         over = {} if isinstance(entry, str) else entry[1]
+        if name.startswith("stress:"):
+            # free-running executions of an instance's one-thread programs (implementation -> specification)
+            iname = name[7:]
+            inst, emit, opts = INSTANCES[iname]
+            opts = dict(opts)
+            opts.update(over)
+            c = dict(E.DEFAULTS)
+            c.update(inst)
+            c.update(opts.get("cfg", {}))
+            if iname not in beh_cache:
+                r0 = E.run_tlc(iname, inst, fixes, [prop], emit, workers=workers, timeout=600, seed=seed)
+                beh_cache[iname] = [b for b in r0["behaviours"] if not b.get("prefix")]
+            progs = beh_cache[iname]
+            rnd = random.Random(seed + 11)
+            if len(progs) > 2000:
+                progs = rnd.sample(progs, 2000)
+            rounds = opts.get("rounds", 150 if tier == "quick" else 3000)
+            trace = E.stress(progs, c, prop + "-stress-" + iname, seed, threads=opts.get("threads", 4), rounds=rounds, interval_us=opts.get("interval_us", 150))
+            viols, consumed = E.validate(trace, prop + "-stress-" + iname, parts=8)
+            new, listed = E.classify(viols, prop, known)
+            tot["runs"] += consumed
+            per_instance.append(dict(instance=name, states=0, transitions=0, depth=0, emitted=len(progs), replayed=consumed, validated=consumed,
+                                     steering_misses=0, tlc_wall_s=0, model_violates=False, timed_out=False,
+                                     other_property_violations=len([v for v in viols if v["p"] != prop]), shuffled=0,
+                                     free_running=dict(threads=opts.get("threads", 4), rounds=rounds, interval_us=opts.get("interval_us", 150))))
+            E.log("%s: %d free-running rounds (%d threads, real background collector) validated" % (name, consumed, opts.get("threads", 4)))
+            for v in new:
+                vdir = os.path.join(E.OUT, prop)
+                os.makedirs(vdir, exist_ok=True)
+                p = os.path.join(vdir, "violation-%d.json" % len(all_new))
+                json.dump(dict(property=prop, instance=c, instance_name=name, violation=v, note="free-running round %s of %s: re-run the check; not replayable step by step" % (v["run"], trace)), open(p, "w"), indent=1)
+                all_new.append((v, p))
+            all_listed += listed
+            continue
         if name.startswith("extra:"):
             # hand-written behaviours (what the model cannot express): replayed and validated like the others
             ex = EXTRA[name[6:]]
@@ -91,6 +126,7 @@ def run_property(prop, tier, seed, replay_file=None):
                       simulate=sim, seed=seed, maxbeh=opts.get("maxbeh"))
         c = dict(E.DEFAULTS)
         c.update(inst)
+        beh_cache[name] = [b for b in r["behaviours"] if not b.get("prefix")]
         behs = r["behaviours"]
         cap = opts.get("cap", 1500 if tier == "quick" else 20000)
         if len(behs) > cap:
